@@ -180,12 +180,21 @@ func zzC18SubscribeHistory() {
 	srv.sessions = []*ServerSession{a, b}
 	sess := []*ServerSession{a, b}
 	uris := []string{"file:///x", "file:///y"}
-	var onX [2]bool
+	var onX, gone [2]bool
 	ctx := context.WithValue(context.Background(), idContextKey{}, jsonrpc.ID(zzID7()))
 	steps := vParam("steps")
 	for i := 0; i < steps; i++ {
 		si, ui := vChoice("session", 2), vChoice("uri", 2)
-		if vBool("subscribe") {
+		vAssume(!gone[si])
+		act := vChoice("action", 3)
+		if act == 2 {
+			// the session ends: whatever it was subscribed to, it is no subscriber of anything from here on
+			srv.disconnect(sess[si])
+			gone[si] = true
+			onX[si] = false
+			continue
+		}
+		if act == 0 {
 			_, err := srv.subscribe(ctx, &SubscribeRequest{Session: sess[si], Params: &SubscribeParams{URI: uris[ui]}})
 			vAssert(err == nil, "C18.subscribe.ok")
 			if ui == 0 {
@@ -217,7 +226,9 @@ func zzC18SubscribeHistory() {
 		return false
 	}
 	vAssert(in(a) == onX[0] && in(b) == onX[1], "C18.updated.exactly-the-current-subscribers")
-	if !onX[0] && !onX[1] {
+	if !onX[0] && !onX[1] && !gone[0] && !gone[1] {
+		// (unsubscribe drops a URI's entry with its last subscriber; disconnect leaves an empty one behind, which
+		// notifies nobody and is not part of the property)
 		_, stale := srv.resourceSubscriptions["file:///x"]
 		vAssert(!stale, "C18.unsubscribe.empty-uri-entry-dropped")
 	}
